@@ -28,7 +28,40 @@ import (
 	"verif/harness/plan"
 )
 
-const repo = "/repo"
+// repo is the tree under test. Registered commands always use /repo; VERIF_REPO exists
+// only so that a seeded change can be tried on a scratch worktree while a long run is
+// using /repo (evidence and replays of such a run go to the build directory).
+var repo = func() string {
+	if r := os.Getenv("VERIF_REPO"); r != "" {
+		return r
+	}
+	return "/repo"
+}()
+
+// altMod returns the -modfile argument that points the harness module at repo.
+func altMod(dir string) []string {
+	if repo == "/repo" {
+		return nil
+	}
+	b, err := os.ReadFile(filepath.Join(verif, "harness", "go.mod"))
+	if err != nil {
+		die(2, "%v", err)
+	}
+	os.WriteFile(filepath.Join(dir, "alt.mod"), []byte(strings.Replace(string(b), "=> /repo", "=> "+repo, 1)), 0o644)
+	sum, _ := os.ReadFile(filepath.Join(verif, "harness", "go.sum"))
+	os.WriteFile(filepath.Join(dir, "alt.sum"), sum, 0o644)
+	return []string{"-modfile=" + filepath.Join(dir, "alt.mod")}
+}
+
+// outRoot is where evidence and replays are written.
+func outRoot() string {
+	if repo == "/repo" {
+		return verif
+	}
+	d := filepath.Join(verif, ".build", "alt-out")
+	os.MkdirAll(d, 0o755)
+	return d
+}
 
 // verif is the root of the verification tree: the parent of the directory holding this
 // executable (so that a snapshot of /verif elsewhere works on its own files).
@@ -97,7 +130,7 @@ func replayMode(path string) string {
 		Kind string `json:"kind"`
 	}
 	json.Unmarshal(b, &f)
-	if f.Kind == "sched" {
+	if f.Kind == "sched" || f.Kind == "sched-root" {
 		return "controlled"
 	}
 	return "free"
@@ -177,8 +210,8 @@ func ensureBuild(needRace bool) string {
 			os.RemoveAll(dir)
 			die(2, "instrumenting /repo failed (does it compile?):\n%s", out)
 		}
-		if out, err := runCmd(filepath.Join(verif, "harness"), goEnv, "go", "build", "-overlay", filepath.Join(dir, "overlay.json"),
-			"-o", filepath.Join(dir, "vworker"), "./cmd/vworker"); err != nil {
+		if out, err := runCmd(filepath.Join(verif, "harness"), goEnv, "go", append(append([]string{"build"}, altMod(dir)...), "-overlay", filepath.Join(dir, "overlay.json"),
+			"-o", filepath.Join(dir, "vworker"), "./cmd/vworker")...); err != nil {
 			os.RemoveAll(dir)
 			die(2, "building the instrumented worker failed:\n%s", out)
 		}
@@ -186,8 +219,8 @@ func ensureBuild(needRace bool) string {
 	}
 	if needRace {
 		if _, err := os.Stat(filepath.Join(dir, "vrace")); err != nil {
-			if out, err := runCmd(filepath.Join(verif, "harness"), append(goEnv, "CGO_ENABLED=1"), "go", "build", "-race", "-overlay",
-				filepath.Join(dir, "overlay_shimonly.json"), "-o", filepath.Join(dir, "vrace"), "./cmd/vworker"); err != nil {
+			if out, err := runCmd(filepath.Join(verif, "harness"), append(goEnv, "CGO_ENABLED=1"), "go", append(append([]string{"build"}, altMod(dir)...), "-race", "-overlay",
+				filepath.Join(dir, "overlay_shimonly.json"), "-o", filepath.Join(dir, "vrace"), "./cmd/vworker")...); err != nil {
 				die(2, "building the race worker failed:\n%s", out)
 			}
 		}
@@ -195,7 +228,16 @@ func ensureBuild(needRace bool) string {
 	return dir
 }
 
-// gcBuilds keeps the two most recent build directories.
+// gcKeep is the number of build directories kept besides the current one (more when
+// several scratch trees are being checked side by side).
+var gcKeep = func() int {
+	if repo != "/repo" {
+		return 8
+	}
+	return 1
+}()
+
+// gcBuilds keeps the most recent build directories.
 func gcBuilds(keep string) {
 	ents, _ := os.ReadDir(filepath.Join(verif, ".build"))
 	type e struct {
@@ -204,7 +246,7 @@ func gcBuilds(keep string) {
 	}
 	var ds []e
 	for _, x := range ents {
-		if !x.IsDir() || x.Name() == keep {
+		if !x.IsDir() || x.Name() == keep || x.Name() == "alt-out" {
 			continue
 		}
 		fi, err := x.Info()
@@ -214,7 +256,7 @@ func gcBuilds(keep string) {
 	}
 	sort.Slice(ds, func(i, j int) bool { return ds[i].mod.After(ds[j].mod) })
 	for i, d := range ds {
-		if i >= 1 {
+		if i >= gcKeep {
 			os.RemoveAll(filepath.Join(verif, ".build", d.name))
 		}
 	}
@@ -587,7 +629,7 @@ func merge(prop, tier string, seed int64, results []*subResult, wall time.Durati
 	}
 
 	// known findings
-	os.MkdirAll(filepath.Join(verif, "replays", "known"), 0o755)
+	os.MkdirAll(filepath.Join(outRoot(), "replays", "known"), 0o755)
 	var ids []string
 	for id := range known {
 		ids = append(ids, id)
@@ -595,14 +637,14 @@ func merge(prop, tier string, seed int64, results []*subResult, wall time.Durati
 	sort.Strings(ids)
 	for _, id := range ids {
 		h := known[id]
-		p := filepath.Join(verif, "replays", "known", prop+"-"+id+".json")
+		p := filepath.Join(outRoot(), "replays", "known", prop+"-"+id+".json")
 		b, _ := json.MarshalIndent(h.Witness, "", " ")
 		os.WriteFile(p, b, 0o644)
 		fmt.Printf("KNOWN-FINDING: property=%s %s: %s (%d cases in this run; e.g. %s)\n", prop, id, h.Title, h.Count, p)
 		c.Known = append(c.Known, map[string]any{"id": id, "title": h.Title, "cases": h.Count})
 	}
 	// violations
-	os.MkdirAll(filepath.Join(verif, "replays"), 0o755)
+	os.MkdirAll(filepath.Join(outRoot(), "replays"), 0o755)
 	sort.SliceStable(viol, func(i, j int) bool { return viol[i].Symptom < viol[j].Symptom })
 	printed := 0
 	seenSym := map[string]int{}
@@ -612,7 +654,7 @@ func merge(prop, tier string, seed int64, results []*subResult, wall time.Durati
 		}
 		seenSym[v.Symptom]++
 		printed++
-		p := filepath.Join(verif, "replays", fmt.Sprintf("%s-%s-%d.json", prop, tier, i))
+		p := filepath.Join(outRoot(), "replays", fmt.Sprintf("%s-%s-%d.json", prop, tier, i))
 		b, _ := json.MarshalIndent(v, "", " ")
 		os.WriteFile(p, b, 0o644)
 		det := v.Detail
@@ -635,9 +677,9 @@ func merge(prop, tier string, seed int64, results []*subResult, wall time.Durati
 		"wall_s":      wall.Seconds(),
 		"violations":  violCount,
 	}
-	os.MkdirAll(filepath.Join(verif, "evidence"), 0o755)
+	os.MkdirAll(filepath.Join(outRoot(), "evidence"), 0o755)
 	b, _ := json.MarshalIndent(ev, "", " ")
-	if err := os.WriteFile(filepath.Join(verif, "evidence", prop+".json"), b, 0o644); err != nil {
+	if err := os.WriteFile(filepath.Join(outRoot(), "evidence", prop+".json"), b, 0o644); err != nil {
 		die(2, "%v", err)
 	}
 	fmt.Printf("%s %s: states=%d transitions=%d executions=%d nontrivial=%d outcomes=%d exhaustive=%v violations=%d known=%d wall=%.1fs\n",
